@@ -716,6 +716,15 @@ def random_table_pair(rng, tok=None, max_rows=12, missing=0.1, dup_rate=0.2, ext
                     cols.append(cw)
                     data[cw] = [w + i for i in range(n)]
                     dtypes[cw] = 'int64'
+        if extra and rng.random() < 0.1:
+            # twin labels: columns whose labels differ from an existing one only in case / surrounding
+            # blanks are different columns
+            c0 = rng.choice(list(extra))
+            for c in rng.sample([c0.upper(), ' ' + c0 + ' ', c0.capitalize()], rng.randint(1, 2)):
+                if c not in cols:
+                    cols.insert(rng.randint(0, len(cols)), c)
+                    data[c] = ['t%d_%s' % (i, c.strip()[:2]) for i in range(n)]
+                    dtypes[c] = 'object'
         if extra and rng.random() < 0.08:
             # object cells that are not scalars for every tool: Decimal / Fraction (not exactly
             # representable as floats), tuples of length 1 and 2
@@ -782,6 +791,12 @@ def random_out_attrs(rng, spec, key, attr):
         sel.append(attr)
     if rng.random() < 0.3 and sel:
         sel.append(sel[0])
+    for c in list(sel):
+        # twin labels (see random_table_pair) are requested together with their twin
+        for o in others:
+            if o != c and isinstance(o, str) and isinstance(c, str) and o.strip().lower() == c.strip().lower() \
+                    and o not in sel:
+                sel.append(o)
     rng.shuffle(sel)
     return sel
 
